@@ -625,6 +625,29 @@ def c07(scn):
     first = scn.calls[0].O.get("grid") if scn.calls else None
     if st is None or first != ["ok"]:
         return fails
+    # the spacing accessor: it must be the spacing the grid was constructed with (or length /
+    # (nodes - 1) for a grid built with from_length), and the reported distances are judged
+    # against IT ("the step length from the grid spacing")
+    for c in scn.calls:
+        if c.cmd == "grid_common" and "spacing" in c.O:
+            sp = [unhx(x) for x in c.O["spacing"]]
+            toks = scn.calls[0].toks
+            ln = [t for t in toks if t.startswith("len=")]
+            if g.kind == "profile":
+                want = [unhx(ln[0][4:]) / float(g.size - 1)] if ln else [g.dx]
+            else:
+                if ln:
+                    a, b = ln[0][4:].split(",")
+                    want = [unhx(a) / (float(g.rows) - 1), unhx(b) / (float(g.cols) - 1)]
+                else:
+                    want = [g.dy, g.dx]
+            if [bits(x) for x in sp] != [bits(x) for x in want]:
+                fails.append(("spacing", "spacing() reports %s, the grid was constructed with %s" % (sp, want)))
+            if g.kind == "profile" and len(sp) == 1:
+                g.dx = sp[0]
+            elif g.kind == "raster" and len(sp) == 2:
+                g.dy, g.dx = sp
+            break
     seen = {}
     for c in scn.calls:
         if c.cmd == "q" and len(c.toks) == 3:
